@@ -66,6 +66,7 @@ type redisWorld struct {
 	stopRequested bool
 	hostTasks     []*simhook.Task
 	netCounts     map[string]int
+	inconclusive  bool
 }
 
 func newRedisWorld(sc *RedisScenario) *redisWorld {
@@ -102,6 +103,17 @@ func (w *redisWorld) outstanding() int {
 			if !s.Answered {
 				n++
 			}
+		}
+	}
+	return n
+}
+
+// outstandingConns: number of connections with at least one unanswered request.
+func (w *redisWorld) outstandingConns() int {
+	n := 0
+	for _, c := range w.env.Clients {
+		if c.Replies < len(c.Sent) && !c.EOF && !c.Reset {
+			n++
 		}
 	}
 	return n
